@@ -74,7 +74,7 @@ fn alias_devs(xor: bool, p: usize, a: Fe, b: Fe, h: &Honest) -> Vec<Dev> {
         let mut script: Vec<(usize, Fe)> = (0..loop_allocs).map(|i| (lo + i, h2.snap.witnesses[h2.meta.lo + i])).collect();
         let high_ord = lo + loop_allocs + which * k;
         script.push((high_ord, high_a));
-        devs.push(Dev { script, tag: format!("alias-operand{}=x+r", which) });
+        devs.push(Dev { script, tag: format!("alias-operand{}=x+r", which), must_confirm: true });
     }
     devs
 }
